@@ -11,6 +11,9 @@ Clauses (see notes/C05.md):
   plus-pairs         B  `+`-joined pairs of properties, one line per property
   random-long        B  seeded random longer sequences / option mixes beyond the exhaustive bound
   dict-config        B  the same oracle through expand(abbr, <plain dict without cache>)
+  number-magnitudes  B  numbers of 1..15 significant digits (integer part of 1..15 digits x fraction forms x sign x unit),
+                        singly, in sequences, in `+` pairs, across keys / syntaxes / option variants, + seeded random ones
+  alpha-precision    B  `.N` alpha written with 1..8 digits on every colour form, shortHex on/off, several keys / syntaxes
 
 The oracle `spec_css_line` is written from the property statement only: it never calls the library.
 Abbreviations are *built* from a structured description (key, value atoms, important flag), so the
@@ -441,6 +444,139 @@ def gen_six_pairs():
                 yield (which, xx, yy)
 
 
+# ---- magnitudes: how *long* a number is written (the lists above never exceed 4 significant digits) --------------------
+
+MAX_SIG = 15            # every decimal literal of <= 15 significant digits is a distinct IEEE double; longer ones are not generated
+MAX_INT_WITH_FRACTION = MAX_SIG - 4   # numbers written with a fraction: integer part + the 4 decimal places stay within 15 digits
+IDIOMS = ['65535', '100000', '999999', '1000000', '9999999', '16777216', '2147483647', '4294967295']   # "maximum z-index" etc.
+MAG_FRACTIONS = [None, '.', '.5', '.25', '.125', '.0625', '.0001', '.9999', '.50']   # <= 4 decimals, as everywhere in this module
+MAG_UNITS_MAIN = ['', 'p', 'px']
+MAG_UNITS_MORE = ['e', 'x', 'r', '%', 'rem', 'vh', 'ms']
+
+
+def mag_bodies(rnd, per_len):
+    """integer parts of 1..15 digits: 10..0, 99..9, 1234.., 50..05 and `per_len` seeded random digit strings per length"""
+    out = []
+    for n in range(1, MAX_SIG + 1):
+        for b in ['1' + '0' * (n - 1), '9' * n, '123456789012345'[:n], ('5' + '0' * (n - 2) + '5') if n > 1 else '5']:
+            if b not in out:
+                out.append(b)
+        for _ in range(per_len):
+            b = rnd.choice('123456789') + ''.join(rnd.choice('0123456789') for _d in range(n - 1))
+            if b not in out:
+                out.append(b)
+    return out + [b for b in IDIOMS if b not in out]
+
+
+def mag_numbers(bodies, fractions, signs=('', '-')):
+    """sign x integer part x fraction form, at most MAX_SIG digits in all"""
+    for b in bodies:
+        for fp in fractions:
+            if len(fp or '.') > 1 and len(b) > MAX_INT_WITH_FRACTION:
+                continue                  # (a trailing `.` alone adds no digit: `123456789012345.` is generated)
+            for sign in signs:
+                yield sign + b + (fp or '')
+
+
+def random_number(rnd):
+    """an integer literal of 1..15 digits, or a float literal of 1..11 + 1..4 digits, with random sign and unit"""
+    k = rnd.choice((0, 0, 0, 1, 2, 3, 4))                       # decimals
+    n = rnd.randint(1, MAX_INT_WITH_FRACTION if k else MAX_SIG)  # digits of the integer part
+    digits = rnd.choice('123456789') + ''.join(rnd.choice('0123456789') for _d in range(n - 1))
+    if k:
+        digits += '.' + ''.join(rnd.choice('0123456789') for _d in range(k))
+    elif rnd.random() < 0.15:
+        digits += '.'
+    return rnd.choice(('', '', '-')) + digits + rnd.choice(('', '', '', 'p', 'e', 'x', 'r', 'px', '%', 'rem', 'pt', 's'))
+
+
+def gen_magnitudes(seed, quick):
+    rnd = random.Random(seed + 2)
+    bodies = mag_bodies(rnd, 2 if quick else 12)
+    long_bodies = [b for b in bodies if len(b) >= 5]
+    sub = IDIOMS + [b for i, b in enumerate(long_bodies) if b not in IDIOMS and i % (3 if quick else 1) == 0]
+    # (a) every number x main units x one unit-taking and one unitless key; the remaining units on the plain integers/floats
+    for key in ('w', 'z'):
+        for a in mag_numbers(bodies, MAG_FRACTIONS):
+            for u in MAG_UNITS_MAIN:
+                yield ('css', {}, [[key, [a + u], False]])
+        for a in mag_numbers(bodies, (None, '.25')):
+            for u in MAG_UNITS_MORE:
+                yield ('css', {}, [[key, [a + u], False]])
+    # (b) long numbers x every key of the table x every syntax convention x {!, no !}
+    for a in mag_numbers(sub, (None, '.25'), ('',)):
+        for u in ('', 'e'):
+            for key in (('m', 'c', 'fsz', 'lh', 'z', 'op') if quick else PROPS):
+                for syn in SYNTAXES:
+                    for imp in (False, True):
+                        yield (syn, {}, [[key, [a + u], imp]])
+    # (c) long numbers x every option variant
+    for a in mag_numbers(sub, (None, '.5')):
+        for u in ('', 'p', 'r'):
+            for key in ('m', 'lh'):
+                for o in OPTION_VARIANTS:
+                    yield ('css', o, [[key, [a + u], False]])
+    # (d) separator / minus-sign rule next to a long number, and two long numbers in a row
+    for a in mag_numbers(sub, (None, '.5')):
+        for nb in ('10', '-5', '2e', '#fc0', '-.5', '1000000', '-2147483647', '1234567.25p'):
+            for key in ('m', 'lh'):
+                yield ('css', {}, [[key, [a, nb], False]])
+                yield ('css', {}, [[key, [nb, a], True]])
+    # (e) `+`-joined properties with a long number on either side
+    for i, a in enumerate(mag_numbers(sub, (None, '.25'))):
+        syn = SYNTAXES[i % len(SYNTAXES)]
+        for small in (['p', ['10'], False], ['lh', ['1.5'], True], ['c', ['#fc0.5'], False]):
+            yield (syn, {}, [small, ['z', [a], False]])
+            yield (syn, {}, [['m', [a, a + 'p'], True], small])
+    # (f) seeded random: 1..3 properties of 1..4 values, at least half of them numbers of random length
+    keys = list(PROPS)
+    for _ in range(4000 if quick else 200000):
+        o = {}
+        for v in rnd.sample(OPTION_VARIANTS, rnd.choice((0, 0, 1, 2))):
+            o.update(v)
+        items = []
+        for _p in range(rnd.choice((1, 1, 2, 3))):
+            atoms = [random_number(rnd) if rnd.random() < 0.7 else rnd.choice(ATOMS_FULL) for _a in range(rnd.choice((1, 2, 3, 4)))]
+            items.append([rnd.choice(keys), atoms, rnd.random() < 0.3])
+        yield (rnd.choice(SYNTAXES), o, items)
+
+
+ALPHA_COLORS = ['0', 'f', 'a', 'C', 'fc', '0b', 'E7', 'fc0', '0a1', 'FC0', 'e7bc0b', '0a0b0c', '000000', 'FFFFFF', '112234']
+MAX_ALPHA_DIGITS = 8
+
+
+def alpha_digit_strings(rnd, per_len):
+    """`.N` with N of 1..8 digits: 1234.., 99..9, 00..01, 50..0 (trailing zeros), 00..0 and seeded random digit strings"""
+    out = []
+    for n in range(1, MAX_ALPHA_DIGITS + 1):
+        for d in ['12345678'[:n], '9' * n, '0' * (n - 1) + '1', '5' + '0' * (n - 1), '0' * n, '0' + '7' * (n - 1) if n > 1 else '7']:
+            if d not in out:
+                out.append(d)
+        for _ in range(per_len):
+            d = ''.join(rnd.choice('0123456789') for _d in range(n))
+            if d not in out:
+                out.append(d)
+    return out
+
+
+def gen_alpha(seed, quick):
+    rnd = random.Random(seed + 3)
+    alphas = alpha_digit_strings(rnd, 3 if quick else 40)
+    # every colour form x every alpha spelling x shortHex on/off (key c, css)
+    for body in ALPHA_COLORS:
+        for al in alphas:
+            for o in ({}, {'stylesheet.shortHex': False}):
+                yield ('css', o, [['c', ['#' + body + '.' + al], False]])
+    # the same alphas under the other conventions, on other keys, with `!`, between other values
+    for i, al in enumerate(alphas):
+        for j, body in enumerate(('f', 'fc', 'fc0', 'e7bc0b', '0')):
+            col = '#' + body + '.' + al
+            syn = SYNTAXES[(i + j) % len(SYNTAXES)]
+            yield (syn, {}, [['bg', [col], True]])
+            yield (syn, {}, [['bd', ['1', col, '10'], False]])
+            yield (syn, OPTION_VARIANTS[-1], [['c', [col], False], ['m', ['10', col], True]])
+
+
 def run(tier, seed):
     quick = tier == 'quick'
     out = []
@@ -519,5 +655,26 @@ def run(tier, seed):
                'every syntax x option variant x (4 fixed + %d random abbreviations), seed %d' % (per, seed),
                'a case is (syntax, options, properties); the snippet table is re-parsed on every call (the default public path)', exhaustive=False)
     run_parallel(c, 'bounded.c05', 'check_line', gen_dict_config(seed, per), chunk=40)
+    out.append(c.done())
+
+    c = Clause('number-magnitudes', 'B', 'numbers by length: integer part of 1..%d digits (10..0, 99..9, 1234.., 50..05, seeded random digit strings, '
+               'idioms %r) x fraction form %r (integer part <= %d digits when a fraction is written) x sign x unit' % (MAX_SIG, IDIOMS, MAG_FRACTIONS, MAX_INT_WITH_FRACTION),
+               '(a) every such number x units %r (plain integers and .25 floats also x %r) x keys w, z, css; (b) the numbers of >= 5 digits '
+               '(a third of them in quick) x units none/e x keys x %r x {!, no !}; (c) x units none/p/r x keys m, lh x %d option variants; '
+               '(d) before/after 8 neighbours on m / lh; (e) in `+` pairs; (f) %d seeded random properties lists with numbers of random '
+               'length, dot position, sign and unit; seed %d' % (MAG_UNITS_MAIN, MAG_UNITS_MORE, SYNTAXES, len(OPTION_VARIANTS),
+                                                                 4000 if quick else 200000, seed),
+               'a case is (syntax, options, properties); output must equal spec_css_line: the number prints in plain decimal notation of '
+               'the typed value whatever its length, with the unit the statement gives it', exhaustive=False)
+    run_parallel(c, 'bounded.c05', 'check_line', gen_magnitudes(seed, quick), chunk=1500)
+    out.append(c.done())
+
+    c = Clause('alpha-precision', 'B', '`.N` alpha with N of 1..%d digits (1234.., 99..9, 00..01, 50..0, 00..0, 07..7, seeded random digit strings) '
+               'on the colour bodies %r' % (MAX_ALPHA_DIGITS, ALPHA_COLORS),
+               'every body x every alpha x shortHex on/off on key c, css; plus every alpha on 5 bodies x keys bg (with !), bd (between two '
+               'numbers), c + m pair under all options together; syntax cycles through %r; seed %d' % (SYNTAXES, seed),
+               'a case is (syntax, options, properties); the printed rgba() is parsed back and must denote exactly the typed (r, g, b, alpha)',
+               exhaustive=False)
+    run_parallel(c, 'bounded.c05', 'check_line', gen_alpha(seed, quick), chunk=500)
     out.append(c.done())
     return out
